@@ -3,7 +3,7 @@
     (tree with every position, error locations), and run the Spec oracle on the observed result.
     Executable only (extracted / vm_compute). *)
 From Coq Require Import List NArith ZArith Bool String.
-From ApiFu Require Import Base.Sexp Syn.Ast Syn.ParserModel Syn.Printer.
+From ApiFu Require Import Base.Sexp Syn.Ast Syn.ParserModel Syn.Printer Syn.FrontEnd.
 Import ListNotations.
 Local Open Scope string_scope.
 
@@ -310,7 +310,8 @@ Record run := mkrun {
   r_toks : list stoken;             (* what the real scanner handed out *)
   r_eof : pos; r_eof_errs : list pos;
   r_tree : option sexp;             (* None: nil *)
-  r_errs : list pos }.              (* Error.Location of every returned error, in order *)
+  r_errs : list pos;                (* Error.Location of every returned error, in order *)
+  r_src : option bytes }.           (* the source text itself *)
 
 Definition dec_run (s : sexp) : option run :=
   match tagged "run" s with
@@ -320,7 +321,8 @@ Definition dec_run (s : sexp) : option run :=
           opt_bind (as_N n) (fun n' => opt_bind (map_opt dec_stoken ts) (fun ts' =>
           opt_bind (dec_pos el ec) (fun e => opt_bind (map_opt dec_err ees) (fun ees' =>
           opt_bind (map_opt dec_err oes) (fun oes' =>
-          Some (mkrun n' ts' e ees' (if is_sym "nil" tree then None else Some tree) oes'))))))
+          Some (mkrun n' ts' e ees' (if is_sym "nil" tree then None else Some tree) oes'
+                      (match field1 "src" l with Some (SStr b) => Some b | _ => None end)))))))
       | _, _, _, _ => None
       end
   | None => None
@@ -449,23 +451,73 @@ Definition model_run (e : entry) (r : run) : option (option sexp * list pos) :=
   | EValue => enc_outcome enc_value (ParseValue (r_eof r) (r_eof_errs r) (r_toks r))
   end.
 
+(** the composed model from the BYTES of the text (FrontEnd.v: scanner model, then parser model) *)
+Definition model_run_bytes (e : entry) (src : bytes) : option (option sexp * list pos) :=
+  match e with
+  | EDoc => enc_outcome enc_document (parse_document_bytes src)
+  | EValue => enc_outcome enc_value (parse_value_bytes src)
+  end.
+
+Definition stoken_eqb (a b : stoken) : bool :=
+  kind_eqb (tk (st_tok a)) (tk (st_tok b)) && bytes_eqb (tv (st_tok a)) (tv (st_tok b)) &&
+  pos_eqb (tp (st_tok a)) (tp (st_tok b)) && pos_list_eqb (st_errs a) (st_errs b).
+
+Fixpoint stokens_eqb (a b : list stoken) : bool :=
+  match a, b with
+  | [], [] => true
+  | x :: a', y :: b' => stoken_eqb x y && stokens_eqb a' b'
+  | _, _ => false
+  end.
+
+(** the stream the front-end model computes from the bytes against what the real scanner handed
+    out, Scan call by Scan call (kind, value, position, the errors of that call; end position and
+    final errors) *)
+Definition front_matches (src : bytes) (r : run) : option bool :=
+  match front_end src with
+  | None => None
+  | Some f => Some (stokens_eqb (f_toks f) (r_toks r) && pos_eqb (f_eof f) (r_eof r) &&
+                    pos_list_eqb (f_eof_errs f) (r_eof_errs r))
+  end.
+
 Definition enc_errs (es : list pos) : sexp := SL (map (fun p => SL (enc_pos p)) es).
 
-Definition compare_run (e : entry) (r : run) : option sexp :=
-  match model_run e r with
-  | None => Some (v_mismatch "model-out-of-fuel" [])
+Definition compare_outcome (how : string) (m : option (option sexp * list pos)) (r : run) : option sexp :=
+  match m with
+  | None => Some (v_mismatch "model-out-of-fuel" [tag "model" [SSym how]])
   | Some (mt, mes) =>
       match mt, r_tree r with
       | Some x, Some y =>
           if negb (sexp_eqb x y) then
-            Some (v_mismatch (if sexp_eqb (strip x) (strip y) then "positions" else "tree") [tag "model" [x]])
-          else if negb (pos_list_eqb mes (r_errs r)) then Some (v_mismatch "error-locations" [tag "model" [enc_errs mes]])
+            Some (v_mismatch (if sexp_eqb (strip x) (strip y) then "positions" else "tree") [tag "model" [SSym how; x]])
+          else if negb (pos_list_eqb mes (r_errs r)) then Some (v_mismatch "error-locations" [tag "model" [SSym how; enc_errs mes]])
           else None
       | None, None =>
-          if negb (pos_list_eqb mes (r_errs r)) then Some (v_mismatch "error-locations" [tag "model" [enc_errs mes]])
+          if negb (pos_list_eqb mes (r_errs r)) then Some (v_mismatch "error-locations" [tag "model" [SSym how; enc_errs mes]])
           else None
-      | Some x, None => Some (v_mismatch "model-accepts-implementation-rejects" [tag "model" [enc_errs mes]])
-      | None, Some _ => Some (v_mismatch "model-rejects-implementation-accepts" [tag "model" [enc_errs mes]])
+      | Some x, None => Some (v_mismatch "model-accepts-implementation-rejects" [tag "model" [SSym how; enc_errs mes]])
+      | None, Some _ => Some (v_mismatch "model-rejects-implementation-accepts" [tag "model" [SSym how; enc_errs mes]])
+      end
+  end.
+
+Definition from_bytes_limit : N := 4096.
+
+(** the parser model on the real scanner's tokens; and, from the bytes, the scanner model against
+    the real scanner's stream and the composed model against the real parser's result *)
+Definition compare_run (e : entry) (r : run) : option sexp :=
+  match compare_outcome "from-tokens" (model_run e r) r with
+  | Some v => Some v
+  | None =>
+      match r_src r with
+      | None => None
+      | Some src =>
+          (* the scanner model recomputes the length of the remaining input at every Scan call:
+             quadratic; texts above [from_bytes_limit] are compared through their tokens only *)
+          if N.ltb from_bytes_limit (N.of_nat (List.length src)) then None else
+          match front_matches src r with
+          | None => Some (v_mismatch "front-end-out-of-fuel" [])
+          | Some false => Some (v_mismatch "front-end-token-stream" [])
+          | Some true => compare_outcome "from-bytes" (model_run_bytes e src) r
+          end
       end
   end.
 
@@ -493,6 +545,10 @@ Definition classes_run (e : entry) (r : run) : list string :=
   (if acc && has_tok b_bang KPunct r then ["non-null-types"] else []) ++
   (if acc && has_tok b_fragment KName r then ["kw-fragment"] else []) ++
   (if Nat.leb 1000 n then ["thousand-tokens"] else []) ++
+  (match r_src r with
+   | Some src => if N.ltb from_bytes_limit (N.of_nat (List.length src)) then ["from-tokens-only"] else ["from-bytes"]
+   | None => ["from-tokens-only"]
+   end) ++
   (if acc || (negb lexerr && negb (pos_eqb lastp first)) then ["nontrivial"] else []).
 
 (** ** the case *)
